@@ -1,12 +1,21 @@
 #!/bin/sh
-# tools/seedcheck.sh <seed-dir-name> <check ids...> : apply /verif/seeded/<name>/patch.diff to /repo, run the checks (quick), undo.
+# tools/seedcheck.sh <seed-dir-name> <check ids...>
+# default: apply /verif/seeded/<name>/patch.diff to /repo, run the checks (quick), undo straight afterwards.
+# SEED_WORKTREE=<dir>: run against a scratch worktree that has the patch applied instead (XGCM_REPO), leaving /repo alone
+#                      (used while long background runs read /repo).
 cd "$(dirname "$0")/.."
 NAME="$1"; shift
 P="seeded/$NAME/patch.diff"
-git -C /repo diff --quiet || { echo "repo not clean"; exit 2; }
-git -C /repo apply "$PWD/$P" || { echo "patch does not apply"; exit 2; }
+export VERIF_EVIDENCE_DIR="${TMPDIR:-/tmp}/verif-seed-evidence"
+if [ -n "$SEED_WORKTREE" ]; then
+  export XGCM_REPO="$SEED_WORKTREE"
+  git -C "$SEED_WORKTREE" diff --quiet -- xgcm && git -C "$SEED_WORKTREE" apply "$PWD/$P"
+else
+  git -C /repo diff --quiet || { echo "repo not clean"; exit 2; }
+  git -C /repo apply "$PWD/$P" || { echo "patch does not apply"; exit 2; }
+fi
 for c in "$@"; do
   out=$(./check $c ${TIER:-quick} 2>&1); rc=$?
-  echo "$NAME $c rc=$rc $(echo "$out" | grep -E "^(violation|pinned|regression)" | head -1) $(echo "$out" | grep '^VIOLATION' | head -1)"
+  echo "$NAME $c rc=$rc $(echo "$out" | grep -E "^(violation|pinned|regression)" | head -1 | cut -c1-110) $(echo "$out" | grep '^VIOLATION' | head -1)"
 done
-git -C /repo checkout -- .
+[ -n "$SEED_WORKTREE" ] || git -C /repo checkout -- .
